@@ -204,7 +204,7 @@ z("Incomplete[2]", "incomplete/array-bounded", inc=True, align=False)
 MINI = [
     "void", "int", "int const", "long", "double", "bool", "char", "E", "SE", "std::nullptr_t", "int*", "int const*", "void*",
     "void const*", "int&", "int const&", "int&&", "int[3]", "int[]", "void()", "void (*)()", "void (&)()", "Base", "Derived",
-    "Base*", "Derived*", "Base&", "Derived&", "Base const&", "PrivDerived*", "Ambiguous*", "Empty", "ImplicitFromInt",
+    "PrivDerived", "Ambiguous", "Base*", "Derived*", "Base&", "Derived&", "Base const&", "PrivDerived*", "Ambiguous*", "Empty", "ImplicitFromInt",
     "ExplicitFromInt", "ConvToInt", "ExplicitConvToInt", "int Pod::*", "MoveOnly", "DelCopy", "ThrowCopy", "U", "Abstract&",
 ]
 _by_spell = {}
